@@ -31,7 +31,11 @@ _Bool g_vl_shape_known; unsigned long long g_vl_shape;
 /* INT-01: level threading and results of KSI_AggregationHashChain_aggregate (C03.memo) */
 int g_vl_level; size_t g_vl_aggs;
 
+#ifdef VL_BOUND      /* bounded stand-in jobs: at most VL_BOUND chains, index lists of at most VL_BOUND elements */
+#define VL_MAX_LIST ((size_t)3)
+#else
 #define VL_MAX_LIST ((size_t)0x0fffffffffffffffULL)      /* a list of pointers cannot be longer than the address space / 8 */
+#endif
 #define VL_N_EFF(sig) ((sig)->aggregationChainList != NULL ? g_vl_n : (size_t)0)
 #define VL_OUT(k) (&g_vr_h[VR_H_NEW1 + (int)((k) % 2)])   /* hash identity of the output of chain k (INT-01) */
 
